@@ -110,7 +110,7 @@ def package_overlay(root, how, package="syne_tune"):
                 p = os.path.join(d, f)
                 with open(p, encoding="utf-8") as fh:
                     src = fh.read()
-                fn = {"reformat": reformat, "swapif": swap_if, "flipcmp": flip_cmp}.get(how)
+                fn = {"reformat": reformat, "swapif": swap_if, "flipcmp": flip_cmp, "inline": inline_temps, "extract": extract_args}.get(how)
                 out[os.path.relpath(p, root)] = fn(src) if fn else rewrite(src, how)
     return out
 
@@ -161,5 +161,147 @@ def swap_if(src):
 
 def flip_cmp(src):
     t = _FlipCmp().visit(ast.parse(src))
+    ast.fix_missing_locations(t)
+    return ast.unparse(t) + "\n"
+
+
+class _InlineTemps(ast.NodeTransformer):
+    """`t = <call-free expression>` immediately followed by a simple statement that reads `t` exactly once, `t` not
+    used anywhere else in the function: the temporary is inlined."""
+
+    def _inline_in(self, fn):
+        counts = {}
+        for n in ast.walk(fn):
+            if isinstance(n, ast.Name):
+                counts.setdefault(n.id, [0, 0])[0 if isinstance(n.ctx, ast.Load) else 1] += 1
+        nonlocal_names = {x for n in ast.walk(fn) if isinstance(n, (ast.Global, ast.Nonlocal)) for x in n.names}
+        nested_uses = set()
+        for n in ast.walk(fn):
+            if n is not fn and isinstance(n, (ast.FunctionDef, ast.AsyncFunctionDef, ast.Lambda, ast.ClassDef,
+                                              ast.ListComp, ast.SetComp, ast.DictComp, ast.GeneratorExp)):
+                for m in ast.walk(n):
+                    if isinstance(m, ast.Name):
+                        nested_uses.add(m.id)
+
+        def process(body):
+            i = 0
+            while i + 1 < len(body):
+                a, b = body[i], body[i + 1]
+                if isinstance(a, ast.Assign) and len(a.targets) == 1 and isinstance(a.targets[0], ast.Name) \
+                        and isinstance(b, (ast.Assign, ast.Expr, ast.Return, ast.AugAssign)):
+                    t = a.targets[0].id
+                    if counts.get(t) == [1, 1] and t not in nonlocal_names and t not in nested_uses \
+                            and not any(isinstance(y, (ast.Await, ast.Yield, ast.YieldFrom, ast.NamedExpr, ast.Lambda,
+                                                       ast.ListComp, ast.SetComp, ast.DictComp, ast.GeneratorExp, ast.IfExp, ast.BoolOp))
+                                        for y in ast.walk(a.value)):
+                        uses = [y for y in ast.walk(b) if isinstance(y, ast.Name) and y.id == t and isinstance(y.ctx, ast.Load)]
+                        if len(uses) == 1 and any(isinstance(y, ast.Call) for y in ast.walk(a.value)):
+                            # the value has a call: every call of b must enclose the use (arguments are evaluated first),
+                            # and b must not be short-circuiting around it
+                            anc = set()
+                            for y in ast.walk(b):
+                                for z in ast.iter_child_nodes(y):
+                                    z._p = y
+                            y = uses[0]
+                            while getattr(y, "_p", None) is not None:
+                                y = y._p
+                                anc.add(id(y))
+                            if any(isinstance(y, (ast.Call, ast.Await)) and id(y) not in anc for y in ast.walk(b)) or \
+                                    any(isinstance(y, (ast.BoolOp, ast.IfExp, ast.Lambda, ast.ListComp, ast.SetComp, ast.DictComp, ast.GeneratorExp))
+                                        for y in ast.walk(b)):
+                                uses = []
+                        stores_in_b = {y.id for y in ast.walk(b) if isinstance(y, ast.Name) and isinstance(y.ctx, ast.Store)}
+                        reads_of_a = {y.id for y in ast.walk(a.value) if isinstance(y, ast.Name)}
+                        if len(uses) == 1 and not (stores_in_b & reads_of_a) and not isinstance(b, ast.AugAssign):
+                            class R(ast.NodeTransformer):
+                                def visit_Name(self, n):
+                                    if n.id == t and isinstance(n.ctx, ast.Load):
+                                        return a.value
+                                    return n
+                            body[i + 1] = R().visit(b)
+                            del body[i]
+                            continue
+                i += 1
+            for st in body:
+                for fld in ("body", "orelse", "finalbody"):
+                    sub = getattr(st, fld, None)
+                    if isinstance(sub, list) and sub and isinstance(sub[0], ast.stmt) and not isinstance(st, (ast.FunctionDef, ast.AsyncFunctionDef, ast.ClassDef)):
+                        process(sub)
+                for h in getattr(st, "handlers", []) or []:
+                    process(h.body)
+        process(fn.body)
+
+    def visit_FunctionDef(self, fn):
+        self.generic_visit(fn)
+        self._inline_in(fn)
+        return fn
+
+    visit_AsyncFunctionDef = visit_FunctionDef
+
+
+def inline_temps(src):
+    t = _InlineTemps().visit(ast.parse(src))
+    ast.fix_missing_locations(t)
+    return ast.unparse(t) + "\n"
+
+
+class _ExtractArgs(ast.NodeTransformer):
+    """`y = h(a, g(x))` -> `_xt1 = g(x); y = h(a, _xt1)`: the first call-valued argument of a statement-level call is
+    given a name (only when everything evaluated before it is call-free, so the evaluation order is unchanged)."""
+
+    def __init__(self):
+        self.n = 0
+
+    @staticmethod
+    def _callfree(e):
+        return not any(isinstance(y, (ast.Call, ast.Await, ast.Yield, ast.YieldFrom, ast.NamedExpr)) for y in ast.walk(e))
+
+    def _process(self, body):
+        out = []
+        for st in body:
+            for fld in ("body", "orelse", "finalbody"):
+                sub = getattr(st, fld, None)
+                if isinstance(sub, list) and sub and isinstance(sub[0], ast.stmt) and not isinstance(st, (ast.ClassDef,)):
+                    setattr(st, fld, self._process(sub))
+            for h in getattr(st, "handlers", []) or []:
+                h.body = self._process(h.body)
+            call = None
+            if isinstance(st, (ast.Assign, ast.Return, ast.Expr)) and isinstance(st.value, ast.Call):
+                call = st.value
+            if call is not None and self._callfree(call.func) and not any(isinstance(a, ast.Starred) for a in call.args):
+                if isinstance(st, ast.Assign) and not all(isinstance(t, ast.Name) for t in st.targets):
+                    call = None     # a subscript / attribute target is evaluated after the value: fine, but keep it simple
+            else:
+                call = None
+            if call is not None:
+                items = [("a", i, a) for i, a in enumerate(call.args)] + [("k", i, k.value) for i, k in enumerate(call.keywords) if k.arg]
+                for kind, i, a in items:
+                    if self._callfree(a):
+                        continue
+                    if isinstance(a, ast.Call) and not any(isinstance(y, (ast.Lambda, ast.GeneratorExp, ast.ListComp, ast.SetComp, ast.DictComp,
+                                                                          ast.Starred)) for y in ast.walk(a)):
+                        self.n += 1
+                        nm = f"_xt{self.n}"
+                        out.append(ast.Assign(targets=[ast.Name(id=nm, ctx=ast.Store())], value=a))
+                        if kind == "a":
+                            call.args[i] = ast.Name(id=nm, ctx=ast.Load())
+                        else:
+                            call.keywords[i].value = ast.Name(id=nm, ctx=ast.Load())
+                    break       # only the first call-valued argument
+            out.append(st)
+        return out
+
+    def visit_FunctionDef(self, fn):
+        self.generic_visit(fn)
+        saved, self.n = self.n, 0
+        fn.body = self._process(fn.body)
+        self.n = saved
+        return fn
+
+    visit_AsyncFunctionDef = visit_FunctionDef
+
+
+def extract_args(src):
+    t = _ExtractArgs().visit(ast.parse(src))
     ast.fix_missing_locations(t)
     return ast.unparse(t) + "\n"
